@@ -8,7 +8,7 @@ import itertools
 import z3
 
 from .repo import Unsupported
-from .values import (V, Num, Bool, Str, NoneV, NONE, Opt, Tup, Lst, Dct, SetV, Obj, Opq, Fn,
+from .values import (V, Num, Bool, Str, NoneV, NONE, Opt, Tup, Lst, Dct, SetV, Obj, Opq, Fn, NDArr,
                      truth, ite, eq, fresh_int, fresh_name)
 from . import symex
 
@@ -104,6 +104,11 @@ def summarise(ex, n: ast.For, seq: Lst, p):
     temps = assigned_names(n.body) | assigned_names([ast.Expr(value=n.target)] if False else []) | _target_names(n.target)
     accs = accumulator_names(n.body, p.env)
     temps -= accs
+    # array-store accumulators: local numpy arrays only ever touched by `arr[i] = v` statements
+    stores = {t.value.id for st in n.body for x in ast.walk(st) if isinstance(x, ast.Assign) for t in x.targets
+              if isinstance(t, ast.Subscript) and isinstance(t.value, ast.Name) and isinstance(p.env.get(t.value.id), NDArr)}
+    stores -= {nm for nm in assigned_names(n.body)}
+    temps -= stores
     is_gen = p.yields is not None
     base_env = dict(p.env)
     for t in temps:
@@ -114,6 +119,9 @@ def summarise(ex, n: ast.For, seq: Lst, p):
         env = dict(base_env)
         for a in accs:
             env[a] = Lst(items=[])
+        for a in stores:
+            arr = p.env[a]
+            env[a] = NDArr(arr.n, arr._at, arr.dtype, log=[])   # records this iteration's stores
         start = symex.Path(p.cond + [idx >= 0, idx < N], env, Lst(items=[]) if is_gen else None, p.heap)
         sub = ex.child()
         sub.index_ctx = ex.index_ctx + [idx]
@@ -188,10 +196,47 @@ def summarise(ex, n: ast.For, seq: Lst, p):
             new = ex.concat(new, exit_delta)
         return new
 
+    for a in stores:
+        for f in falls:
+            if len(f.env[a].log) > 1:
+                raise Unsupported(f"{ex.module.name}:{n.lineno}: more than one store to {a} per iteration")
+        for o in exits:
+            if o.env is not None and isinstance(o.env.get(a), NDArr) and o.env[a].log:
+                raise Unsupported(f"{ex.module.name}:{n.lineno}: store to {a} in an exiting iteration")
+
+    def stored(a, old: NDArr, count):
+        """array after `count` completed iterations: cell k holds the value of the LAST iteration that stored to k"""
+        def info(j, k):
+            fs, _, _ = body_at(j)
+            hit, val = [], None
+            for f in fs:
+                log = f.env[a].log
+                if log:
+                    c = z3.And(extra(f.cond), log[0][0] == k)
+                    hit.append(c)
+                    val = log[0][1] if val is None else ite(c, log[0][1], val)
+            return (z3.Or(hit) if hit else z3.BoolVal(False)), val
+        tag = fresh_name(f"st{loop_id}")
+        W = z3.Function(tag + "_last", z3.IntSort(), z3.IntSort())
+        k, j, j2 = fresh_int("sk"), fresh_int("sj"), fresh_int("sj2")
+        found = lambda kk: z3.Exists([j], z3.And(j >= 0, j < count, info(j, kk)[0]))
+        ex.bg_local(p, guard=count >= 0, facts=[z3.ForAll([k], z3.Implies(found(k), z3.And(
+            W(k) >= 0, W(k) < count, info(W(k), k)[0],
+            z3.ForAll([j2], z3.Implies(z3.And(j2 > W(k), j2 < count), z3.Not(info(j2, k)[0]))))))])
+
+        def at(kk):
+            hit, val = info(W(kk), kk)
+            if val is None:
+                return old.at(kk)
+            return ite(found(kk), val, old.at(kk))
+        return NDArr(old.n, at, old.dtype)
+
     def after_env(env_from, count, exit_path=None):
         env = dict(p.env)
         for t in temps:
             env[t] = Poison(t)
+        for a in stores:
+            env[a] = stored(a, p.env[a], count)
         for a in accs:
             env[a] = accumulated(a, p.env[a], count, exit_path.env[a] if exit_path is not None else None)
         return env
